@@ -1,6 +1,7 @@
 package eng
 
 import (
+	"encoding/json"
 	"bytes"
 	"fmt"
 	"os"
@@ -25,6 +26,36 @@ type MutantResult struct {
 
 // RunSelftest applies every must-fail patch of the property (or all) to a scratch
 // copy of the repo and requires the check to report a violation.
+// skipBaseline: the caller has just checked the unmodified tree.
+var selftestSkipBaseline bool
+
+// RunSelftestEmbedded runs the must-fail corpus of one property after a passing
+// thorough check and returns (total, killed, names of survivors).
+func RunSelftestEmbedded(verifDir, repoDir, prop, vpBin string) (int, int, []string) {
+	selftestSkipBaseline = true
+	defer func() { selftestSkipBaseline = false }()
+	RunSelftest(verifDir, repoDir, prop, vpBin)
+	var lr struct {
+		Mutants   int `json:"mutants"`
+		Survivors int `json:"survivors"`
+		Results   []struct {
+			Name   string `json:"name"`
+			Killed bool   `json:"killed"`
+		} `json:"results"`
+	}
+	b, err := os.ReadFile(filepath.Join(verifDir, "selftest", "last-run.json"))
+	if err != nil || json.Unmarshal(b, &lr) != nil {
+		return 0, 0, nil
+	}
+	var surv []string
+	for _, r := range lr.Results {
+		if !r.Killed {
+			surv = append(surv, r.Name)
+		}
+	}
+	return lr.Mutants, lr.Mutants - lr.Survivors, surv
+}
+
 func RunSelftest(verifDir, repoDir, prop string, vpBin string) int {
 	root := filepath.Join(verifDir, "selftest", "mutants")
 	var patches []string
@@ -55,6 +86,9 @@ func RunSelftest(verifDir, repoDir, prop string, vpBin string) int {
 		props[filepath.Base(filepath.Dir(p))] = true
 	}
 	for mp := range props {
+		if selftestSkipBaseline {
+			break
+		}
 		outDir := filepath.Join(scratchRoot, "out-base")
 		os.MkdirAll(outDir, 0o755)
 		c := exec.Command(vpBin, "check", mp, "--tier", "quick", "--out", outDir)
@@ -95,7 +129,7 @@ func RunSelftest(verifDir, repoDir, prop string, vpBin string) int {
 		os.RemoveAll(outDir)
 		os.MkdirAll(outDir, 0o755)
 		c := exec.Command(vpBin, "check", mp, "--tier", "quick", "--out", outDir)
-		c.Env = append(os.Environ(), "VERIF_REPO="+dir, "VERIF_DIR="+verifDir, "VP_SCRATCH="+filepath.Join(scratchRoot, "q"))
+		c.Env = append(os.Environ(), "VERIF_REPO="+dir, "VERIF_DIR="+verifDir, "VP_SCRATCH="+filepath.Join(scratchRoot, "q"), "VERIF_TIER=quick")
 		var ob bytes.Buffer
 		c.Stdout = &ob
 		c.Stderr = &ob
